@@ -238,10 +238,14 @@ def pTx? (toks : List String) : Option (Nat × Tx) := do
   let granter ← match ← kv hdr "granter" with
     | "-" => some none
     | g => (pAddr? g).map some
+  let feePayer ← match kv hdr "payer" with    -- optional field
+    | none => some none
+    | some "-" => some none
+    | some p => (pAddr? p).map some
   let fee ← pCoins? (← kv hdr "fee")
   let sig ← pSig? (← kv hdr "sig")
   let msgs ← pMsgs? body
-  pure (n, { signers := signers, granter := granter, fee := fee, sig := sig, msgs := msgs })
+  pure (n, { signers := signers, granter := granter, feePayer := feePayer, fee := fee, sig := sig, msgs := msgs })
 
 /-! ### queries (PROTOCOL.md §7) -/
 
@@ -438,6 +442,12 @@ def stepToks (wall : Nat) (it : Interp) (line : String) (toks : List String) : I
     | some n, some (k, tx) =>
       let (n', r) := n.checkTx tx
       ({ it with node := some n' }, [s!"C {k} {outcomeStr r.outcome}", s!"c {k} {r.code}"])
+    | _, _ => ({ it with halted := true }, [s!"! bad-line {line}"])
+  | "RECHECK" :: k :: _ref :: rest =>       -- RECHECK <N> <n> <the transaction of CHECK n>
+    match it.node, pTx? (k :: rest) with
+    | some n, some (k, tx) =>
+      let (n', r) := n.recheckTx tx
+      ({ it with node := some n' }, [s!"CR {k} {outcomeStr r.outcome}", s!"cr {k} {r.code}"])
     | _, _ => ({ it with halted := true }, [s!"! bad-line {line}"])
   | "QUERY" :: k :: kind :: args =>
     match it.node with
